@@ -19,6 +19,8 @@ var (
 	ErrTableNotFound = errors.New("table not found")
 	// ErrEmptyKey returned when the key is not provided.
 	ErrEmptyKey = errors.New("key must not be empty")
+	// ErrInvalidOperation returned when an operation nested in a transaction is malformed.
+	ErrInvalidOperation = errors.New("invalid transaction operation")
 	// ErrKeyLengthExceeded key length exceeded max allowed value.
 	ErrKeyLengthExceeded = errors.New("key length exceeded max allowed value")
 	// ErrValueLengthExceeded value length exceeded max allowed value.
